@@ -516,6 +516,17 @@ def findings(ctx, model):
     ctx.known_finding(S_.KNOWN_DREP_OA, S_.drep_oa_still_fails(G_.Env()))
 
 
+def search(ctx, model, why):
+    """after a broken generated obligation: the targeted panel (harness/opalg_panel.py) - declared versus observed shapes and
+    dtypes (forward and adjoint) on expressions exercising exactly the classes / methods whose table rows differ"""
+    if why is None:
+        return None
+    import opalg_gen as G
+    import opalg_panel
+
+    return opalg_panel.search(ctx, G.Env(), keys=("shape", "dtype", "matrix_shape", "evaluation_raised", "adjoint_meta"))
+
+
 def replay(ctx, model, case):
     scico = common.setup_scico()
     oracle = _oracle_slice(scico)
